@@ -258,3 +258,71 @@ def check_command_events(files, workdir, bins, seed, count):
         return {"ev": "checkcmd", "fmt": f["fmt"], "lines": f["lines"], "exit": rc, "timeout": to}
     with cf.ThreadPoolExecutor(max_workers=os.cpu_count() or 4) as ex:
         return list(ex.map(one, jobs))
+
+
+def _run_fault(job):
+    argv, ctr, meta = job
+    try:
+        os.remove(ctr)
+    except OSError:
+        pass
+    try:
+        p = subprocess.run(argv, stdout=subprocess.PIPE, stderr=subprocess.DEVNULL, timeout=60, text=True, errors="replace")
+        out, rc, to = p.stdout, p.returncode, False
+    except subprocess.TimeoutExpired:
+        out, rc, to = "", -1, True
+    nl, status, wline, wargs, malformed, nlog = parse_stdout(out, "iccma")
+    try:
+        calls = int(open(ctr).read().strip() or 0)
+        os.remove(ctr)
+    except (OSError, ValueError):
+        calls = 0
+    ev = dict(meta)
+    ev.update({"ev": "clifault", "exit": rc, "timeout": to, "nlines": nl, "status": status, "wline": wline, "calls": calls,
+               "faulted": calls >= meta["at"], "argv": argv[1:]})
+    return ev
+
+
+def fault_events(afs, workdir, bins, seed, fakesat, per_af=10):
+    """C17 at the command line: `crustabri solve --external-sat-solver fakesat` whose K-th call (or every call) fails; the number of calls
+    actually made is read from fakesat's counter file, so a query that never reaches the failing call is not judged"""
+    rng = random.Random(seed)
+    d = os.path.join(workdir, "clifaultfiles")
+    os.makedirs(d, exist_ok=True)
+    segs, jobs, owners = [], [], []
+    modes = [("silent", 1), ("garbage", 1), ("nomodel", 1), ("truncated", 1), ("failat:1:silent", 1), ("failat:2:silent", 2), ("failat:3:garbage", 3), ("failat:2:nomodel", 2)]
+    j = 0
+    for idx, a in enumerate(afs):
+        if a["n"] == 0:
+            continue
+        files = write_files(a, d, idx)
+        segs.append([{"ev": "af", "idx": idx, "n": a["n"], "args": list(range(1, a["n"] + 1)), "ids": [], "att": a["att"], "present": "file",
+                      "tag": a.get("tag", ""), "sems": []}])
+        selfatt = [x for x, y in a["att"] if x == y]
+        for _ in range(per_af):
+            j += 1
+            kind = rng.choice(["DC", "DS", "DS", "SE"])
+            sem = rng.choice(["CO", "PR", "ST", "SST", "STG", "ID"])
+            mode, at = modes[j % len(modes)]
+            cert = rng.random() < 0.6
+            argv = [bins["crustabri"], "solve", "-f", files[("iccma", "good")], "-p", "%s-%s" % (kind, sem), "--logging-level", "off"]
+            args = []
+            if kind != "SE":
+                # self-attacking arguments are queried more often than their share (answers that need no SAT call)
+                x = rng.choice(selfatt) if selfatt and rng.random() < 0.4 else rng.randint(1, a["n"])
+                args = [x]
+                argv += ["-a", str(x)]
+            if cert:
+                argv.append("-c")
+            enc = rng.choice([None, "aux_var", "exp", "hybrid"])
+            if enc:
+                argv += ["--encoding", enc]
+            ctr = os.path.join(d, "ctr_%d" % j)
+            argv += ["--external-sat-solver", fakesat, "--external-sat-solver-opt=--counter", "--external-sat-solver-opt=" + ctr,
+                     "--external-sat-solver-opt=--mode", "--external-sat-solver-opt=" + (mode if mode.startswith("failat") else "failat:1:" + mode)]
+            jobs.append((argv, ctr, {"sem": sem, "kind": kind, "args": args, "cert": cert, "mode": mode, "at": at}))
+            owners.append(len(segs) - 1)
+    with cf.ThreadPoolExecutor(max_workers=os.cpu_count() or 4) as ex:
+        for si, ev in zip(owners, ex.map(_run_fault, jobs)):
+            segs[si].append(ev)
+    return segs
